@@ -15,7 +15,7 @@
    absent at that flush are empty). *)
 From Coq Require Import NArith List.
 From LV Require Import lib.Bytes model.CrashBase model.SyncedPool model.Flagged
-  proofs.CrashBaseProofs proofs.SyncedPoolProofs.
+  proofs.CrashBaseProofs proofs.SyncedPoolProofs proofs.FlaggedProofs.
 Import ListNotations.
 Local Open Scope N_scope.
 
@@ -24,6 +24,16 @@ Theorem C25_pool_crash_consistent : forall fk scale h k l,
   lists_world l (crash (rs_log (run_pool fk scale h)) k) ->
   crash_consistent fk (rs_recs (run_pool fk scale h)) k (crash (rs_log (run_pool fk scale h)) k) l.
 Proof. exact pool_crash_consistent. Qed.
+
+(* The same for flaggedproducer.Producer (writes go straight to the backend, preceded by the dirty
+   mark on the first write after an open or a flush; Flush writes the clean marks).  Hypothesis:
+   two consecutive flushes use different IDs — with equal IDs the statement holds only with the
+   flush that is still in progress (Example C25_flagged_same_id). *)
+Theorem C25_flagged_crash_consistent : forall fk h k l,
+  history_avoids fk h = true -> flush_ids_change None h = true ->
+  lists_world l (crash (fr_log (run_flagged fk h)) k) ->
+  crash_consistent fk (fr_recs (run_flagged fk h)) k (crash (fr_log (run_flagged fk h)) k) l.
+Proof. exact flagged_crash_consistent. Qed.
 
 (* Recovery reads the verdict off the marks alone: an OK verdict means every surviving database
    carries exactly that (non-dirty) mark, "no flush" means no database carries a mark. *)
@@ -47,6 +57,20 @@ Example C25_pool_example :
   map r_pos (rs_recs (run_pool C25_ex_fk 1 C25_ex_h)) = [8%nat; 12%nat].
 Proof. vm_compute. repeat split. Qed.
 
+Example C25_flagged_example :
+  history_avoids C25_ex_fk C25_ex_h = true /\ flush_ids_change None C25_ex_h = true /\
+  map (fun k => check_synced C25_ex_fk (crash (fr_log (run_flagged C25_ex_fk C25_ex_h)) k)) (seq 0 13)
+  = [COk None; COk None; CDirty; CDirty; CDirty; CDirty; CDirty; CDirty;
+     COk (Some [0; 1]); CDirty; CDirty; CDirty; COk (Some [0; 2])].
+Proof. vm_compute. repeat split. Qed.
+
+Example C25_flagged_same_id :
+  history_avoids SameId.fk SameId.h = true /\ flush_ids_change None SameId.h = false /\
+  ~ crash_consistent SameId.fk SameId.recs 11 (crash SameId.log 11) (crash SameId.log 11) /\
+  (exists rc, In rc SameId.recs /\ r_pos rc = 13%nat /\ r_snap rc = crash SameId.log 11).
+Proof. exact flagged_same_id_counterexample. Qed.
+
 Print Assumptions C25_pool_crash_consistent.
+Print Assumptions C25_flagged_crash_consistent.
 Print Assumptions C25_check_ok_some.
 Print Assumptions C25_check_ok_none.
